@@ -1,6 +1,6 @@
 """C01 - query results equal exactly the stored points that satisfy the query (DESIGN 4, C01)."""
 
-from .. import observers, qast, refmodel, world as W
+from .. import ladder, observers, qast, refmodel, world as W
 from .base import E1Check, viol, closure_configs, wide_configs, CFG4
 
 
@@ -73,7 +73,10 @@ class C01(E1Check):
                     c["D"] = 3
         # single operations on a database of six points (beyond the BFS bound N), in-order and shuffled storage
         wide = wide_configs(("mem", "csv"), D=1 if self.tier == "quick" else 2)
-        return cfgs + wide + extra
+        # scale ladder: depth-2 histories on generated databases of 40 / 300 (/ 1300) points
+        lad = ladder.configs(self.ladder_sizes(), storages=("mem", "csv"), autos=(True,), D=2, big_depth=1 if self.tier == "quick" else None)
+        lad += ladder.configs(self.ladder_sizes()[:1], storages=("csv",), autos=(False,), D=2)
+        return cfgs + wide + lad + extra
 
     def budget(self):
         return 600 if self.tier == "quick" else 1200
@@ -105,6 +108,10 @@ class C01(E1Check):
 
     # -- state observers --------------------------------------------------------------------
     def observe(self, w, stored, history, cfg, counters):
+        if cfg.get("ladder"):
+            counters["ladder_states_observed"] += 1
+            return observers.read_battery("C01", w.db, stored, cfg, self.ladder_vocab(cfg["ladder"]), counters,
+                                          filters=(None, "big"), select_filters=(None,))
         quick = self.tier == "quick"
         return observers.read_battery(
             "C01", w.db, stored, cfg, self.vocab, counters,
